@@ -164,8 +164,8 @@ theorem epFinish_inv (sc : Script) {s : St} (h : Inv none s) (hb : s.backend = .
     have x3 := cbClose_ext sc c sd
     have hcl := cbClose_closed sc c sd
     have hn3 : c ∉ (cbClose sc c sd).epReg := by
-      unfold cbClose
-      exact (runActs_notin _ (s := emit (.close c) sd) htr hnr).2
+      have h1 := (runActs_notin (sc.onClose c) (s := emit (.close c) sd) htr hnr).2
+      rcases cbClose_eq sc c sd with he | he <;> rw [he] <;> exact h1
     have hb3 : (cbClose sc c sd).backend = .epoll := by rw [x3.backend, hbd]
     generalize cbClose sc c sd = s3 at h3 x3 hcl hn3 hb3
     simp only []
